@@ -86,6 +86,9 @@ mod x86_64 {
             asm!("pushfq; pop {}", out(reg) r, options(nomem, preserves_flags));
         }
 
+        #[cfg(x86_64_verif)]
+        let r = crate::verif_hooks::overlay_if(r);
+
         r
     }
 
